@@ -96,6 +96,7 @@ type runner struct {
 	cbCancel   map[string]context.CancelFunc
 	batchOf    map[int64]string // goroutine id -> tag of first member of its batch
 	assigned   []*jrpc2.Request // every request in assignment order (srv.assign)
+	badPush    bool             // pushes carry parameters that cannot be marshalled (step "badpush")
 	baseCtx    context.Context
 	baseCancel context.CancelFunc
 	waitDone   chan struct{}
@@ -171,6 +172,8 @@ func outcome(tag, out string, ctx context.Context) (any, error) {
 		return nil, context.Canceled
 	case out == "err:plain":
 		return nil, errors.New("tag=" + tag + " plain failure")
+	case out == "err:baddata": // an *Error whose data is not valid JSON: it cannot be encoded as it stands
+		return nil, &jrpc2.Error{Code: 7, Message: "tag=" + tag + " failed", Data: json.RawMessage(`{"bad":`)}
 	case strings.HasPrefix(out, "err:"):
 		n, _ := strconv.Atoi(out[4:])
 		return nil, jrpc2.Errorf(jrpc2.Code(n), "tag=%s failed", tag)
@@ -182,13 +185,18 @@ func (r *runner) doCallback(ctx context.Context, srv *jrpc2.Server, c string) {
 	cctx := ctx
 	if ctx != noCtx { // noCtx: the caller's context can never end (Done() == nil)
 		var cancel context.CancelFunc
-		cctx, cancel = context.WithCancel(ctx)
+		if c == "cbB" { // a context that ends with a private cause: Callback still reports the context's own error
+			c2, cc := context.WithCancelCause(ctx)
+			cctx, cancel = c2, func() { cc(errors.New("harness: private cause of " + c)) }
+		} else {
+			cctx, cancel = context.WithCancel(ctx)
+		}
 		r.cbCancel[c] = cancel
 	} else {
 		cctx = context.Background()
 	}
 	r.rec.Log("CallbackB", "c", c)
-	rsp, err := srv.Callback(cctx, "cbm", map[string]string{"tag": c})
+	rsp, err := srv.Callback(cctx, "cbm", r.pushParams(c))
 	res, tag, code := "reply", "", 0
 	switch {
 	case err == nil:
@@ -215,7 +223,7 @@ func (r *runner) doCallback(ctx context.Context, srv *jrpc2.Server, c string) {
 
 func (r *runner) doNotify(ctx context.Context, srv *jrpc2.Server) {
 	r.rec.Log("NotifyB")
-	err := srv.Notify(ctx, "pn", map[string]string{"tag": "pn"})
+	err := srv.Notify(ctx, "pn", r.pushParams("pn"))
 	res := "ok"
 	switch {
 	case err == nil:
@@ -227,6 +235,17 @@ func (r *runner) doNotify(ctx context.Context, srv *jrpc2.Server) {
 		res = "error"
 	}
 	r.rec.Log("NotifyE", "res", res)
+}
+
+// pushParams are the parameters of a pushed request; with badPush set they cannot be marshalled (a server without
+// AllowPush refuses the push all the same: ErrPushUnsupported, unconditionally).
+func (r *runner) pushParams(tag string) any {
+	r.rmu.Lock()
+	defer r.rmu.Unlock()
+	if r.badPush {
+		return map[string]any{"tag": tag, "c": make(chan int)}
+	}
+	return map[string]string{"tag": tag}
 }
 
 // noCtx marks a callback issued with a context that can never end.
@@ -438,6 +457,8 @@ func (r *runner) doStep(st Step) {
 		}
 	case "recverr":
 		r.ch.PushErr(nil, vh.ErrInjected, nil)
+	case "recvclosing": // Recv fails with a closing-class error although nobody closed this channel
+		r.ch.PushErr(nil, vh.ErrClosingInjected, nil)
 	case "recveofdata": // data delivered together with io.EOF
 		r.nsend++
 		tag := fmt.Sprintf("m%d.1", r.nsend)
@@ -450,6 +471,10 @@ func (r *runner) doStep(st Step) {
 		r.rec.Log("StopB")
 		r.srv.Stop()
 		r.rec.Log("StopE")
+	case "badpush": // from now on pushed requests carry parameters that cannot be marshalled
+		r.rmu.Lock()
+		r.badPush = true
+		r.rmu.Unlock()
 	case "baseend": // the context every request context derives from ends
 		if r.baseCancel != nil {
 			r.rec.Log("BaseEnd")
